@@ -10,7 +10,10 @@ use futures::channel::oneshot;
 use futures::task;
 
 use std::mem;
+#[cfg(not(feature = "verif-hooks"))]
 use std::sync::*;
+#[cfg(feature = "verif-hooks")]
+use crate::verif::sync::*;
 use std::pin::{Pin};
 
 ///
